@@ -20,12 +20,32 @@ enum Hs {
 
 /// The most recent token offered to the station, as far as it is still "the last thing it
 /// consumed".
+/// R3: the list of active stations after a witnessed token pass (LAS valid): the span between
+/// sender and receiver holds no active station, the sender is active.
+fn model_witness(mut las: u128, sa: u8, da: u8) -> u128 {
+    for a in 0..127u8 {
+        let in_span = if da > sa { a >= sa && a < da } else { a >= sa || a < da };
+        if in_span {
+            las &= !(1u128 << a);
+        }
+    }
+    las | (1u128 << sa)
+}
+
+/// R3: the registered predecessor is the next lower active address, cyclically.
+fn model_ps(las: u128, ts: u8) -> u8 {
+    (0..ts).rev().find(|a| las >> a & 1 == 1).or_else(|| (0..127u8).rev().find(|a| las >> a & 1 == 1)).unwrap_or(ts)
+}
+
 #[derive(Clone, Debug)]
 struct Offer {
     from: u8,
     /// Registered predecessor before / after the poll that consumed the token.
     ps_pre: u8,
     ps_post: u8,
+    /// Registered predecessor at the moment the token was handled, when it was one of several
+    /// telegrams consumed in one poll (R3 applied to the telegrams before it).
+    ps_model: Option<u8>,
     in_ring_pre: bool,
     /// `from` had offered the token before (since the station last became idle).
     offered_before: bool,
@@ -57,6 +77,7 @@ pub struct HandoverMonitor {
     prev_end: u64,
     pub n_accept_ps: u64,
     pub n_accept_second_offer: u64,
+    pub n_accept_in_batch: u64,
     pub n_first_offer_refused: u64,
     pub n_claims: u64,
     pub n_retry2: u64,
@@ -98,6 +119,7 @@ impl HandoverMonitor {
             prev_end: 0,
             n_accept_ps: 0,
             n_accept_second_offer: 0,
+            n_accept_in_batch: 0,
             n_first_offer_refused: 0,
             n_claims: 0,
             n_retry2: 0,
@@ -159,9 +181,19 @@ impl Monitor for HandoverMonitor {
                 return;
             }
         }
+        // R3 inside one receive batch: the list of active stations (and with it the registered
+        // predecessor) changes with every witnessed pass, also between two telegrams of one poll
+        let mut las_model: u128 = p.pre.las;
+        let batch_clean = p.rx.len() > 1 && p.rx.iter().all(|r| matches!(r.verdict, RxVerdict::Consumed { .. })) && p.pre.in_ring;
         for r in p.rx {
             match &r.verdict {
                 RxVerdict::Consumed { frame, src, last } => {
+                    let ps_model = if batch_clean { Some(model_ps(las_model, ts)) } else { None };
+                    if let Frame::Token { da, sa } = frame {
+                        if *sa != ts && *sa <= 125 && *da <= 125 && (*da != ts || !*last) {
+                            las_model = model_witness(las_model, *sa, *da);
+                        }
+                    }
                     self.st[i].last_valid_activity = p.t;
                     // anything heard ends a pending pass supervision
                     if let Hs::Passed { to, heard, .. } = &mut self.st[i].hs {
@@ -194,6 +226,7 @@ impl Monitor for HandoverMonitor {
                                 from: *sa,
                                 ps_pre: p.pre.ps,
                                 ps_post: p.post.ps,
+                                ps_model,
                                 in_ring_pre: p.pre.in_ring,
                                 offered_before,
                                 last_in_buffer: *last,
@@ -294,7 +327,13 @@ impl Monitor for HandoverMonitor {
                 } else {
                     match &s.offer {
                         Some(o) => {
-                            let from_ps = o.from == o.ps_pre || o.from == o.ps_post;
+                            let from_ps = match o.ps_model {
+                                Some(m) => o.from == m,
+                                None => o.from == o.ps_pre || o.from == o.ps_post,
+                            };
+                            if o.ps_model.is_some() {
+                                self.n_accept_in_batch += 1;
+                            }
                             if !o.in_ring_pre {
                                 w.violate(
                                     self.prop,
@@ -477,6 +516,7 @@ impl Monitor for HandoverMonitor {
     fn report(&self, _w: &World, s: &mut Stats) {
         s.add("handover.accepted_from_predecessor", self.n_accept_ps);
         s.add("probe.token_accepted_from_new_predecessor_on_second_offer", self.n_accept_second_offer);
+        s.add("probe.token_accepted_as_last_of_several_telegrams_in_one_poll", self.n_accept_in_batch);
         s.add("handover.claims", self.n_claims);
         s.add("probe.second_pass_attempt", self.n_retry2);
         s.add("probe.third_pass_attempt", self.n_retry3);
